@@ -132,6 +132,15 @@ fn tier_override(name: &str) -> Option<(Option<usize>, Option<usize>)> {
         ("mpsc_bounded/try_send_batch2_race_idle_rx_cap2", Some(2), Some(3)),
         ("mpmc_bounded/try_send_batch2_race_idle_rx_cap2", Some(2), Some(3)),
         ("mpmc_bounded/2p_send_batch2_each_cap2", None, Some(0)),
+        ("mpmc_bounded/2p1c_send1_each_drain_batch2_cap1", Some(0), Some(1)),
+        ("mpmc_bounded/2p1c_send1_each_drain_batch2_cap2", Some(0), Some(1)),
+        ("mpmc_unbounded/2p1c_send1_each_drain_batch2", Some(0), Some(1)),
+        ("mpmc_bounded/rxdrop_vs_2_blocked_senders_cap1", Some(2), Some(3)),
+        ("mpmc_bounded/mix_synctx_asyncrx_rxdrop_vs_2_blocked_senders_cap1", Some(2), Some(3)),
+        ("mpmc_bounded/mix_asynctx_syncrx_rxdrop_vs_2_pending_senders_cap1", Some(2), Some(3)),
+        ("mpsc_bounded/rxdrop_vs_2_blocked_senders_cap1", Some(2), Some(3)),
+        ("mpsc_bounded/mix_synctx_asyncrx_rxdrop_vs_2_blocked_senders_cap1", Some(2), Some(3)),
+        ("mpsc_bounded/mix_asynctx_syncrx_rxdrop_vs_2_pending_senders_cap1", Some(2), Some(3)),
         // three threads on the lock-based flavours
         ("mpmc_bounded/2p1c_send1_each_cap1", None, Some(0)),
         ("mpmc_bounded/2p1c_send1_each_cap2", Some(0), Some(1)),
@@ -227,7 +236,42 @@ pub fn channel_scenarios() -> Vec<Scenario> {
                 b.add(fl, Shape { n_tx: 2, ..sh("txclone_drop_vs_send", cap, vec![tp(None, Some(0), vec![Drain]), tp(Some(0), None, vec![Send(11)]), tp(Some(1), None, vec![DropTx])]) });
             }
         }
+        if fl.multi_tx() && fl.has_batch() {
+            // I': two producers racing for the window, the consumer drains with batch receives (tombstoned claims
+            //     must still return their credit)
+            for cap in caps_of(fl, &[1, 2]) {
+                b.add(
+                    fl,
+                    Shape { n_tx: 2, ..sh("2p1c_send1_each_drain_batch2", cap, vec![tp(None, Some(0), vec![DrainBatch(2)]), tp(Some(0), None, vec![Send(11)]), tp(Some(1), None, vec![Send(21)])]) },
+                );
+            }
+        }
         if fl.multi_tx() && fl.is_bounded() {
+            // E': the last receiver goes away with TWO senders blocked on the full channel: both must come back Closed
+            b.add(
+                fl,
+                Shape { n_tx: 2, drains: false, prefill: vec![1], ..sh("rxdrop_vs_2_blocked_senders", Some(1), vec![tp(None, Some(0), vec![DropRx]), tp(Some(0), None, vec![Send(11)]), tp(Some(1), None, vec![Send(21)])]) },
+            );
+            b.add(
+                fl,
+                Shape {
+                    n_tx: 2,
+                    drains: false,
+                    prefill: vec![1],
+                    mix: Mix::TxSyncRxAsync,
+                    ..sh("mix_synctx_asyncrx_rxdrop_vs_2_blocked_senders", Some(1), vec![tp(None, Some(0), vec![DropRx]), tp(Some(0), None, vec![Send(11)]), tp(Some(1), None, vec![Send(21)])])
+                },
+            );
+            b.add(
+                fl,
+                Shape {
+                    n_tx: 2,
+                    drains: false,
+                    prefill: vec![1],
+                    mix: Mix::TxAsyncRxSync,
+                    ..sh("mix_asynctx_syncrx_rxdrop_vs_2_pending_senders", Some(1), vec![tp(None, Some(0), vec![DropRx]), tp(Some(0), None, vec![Send(11)]), tp(Some(1), None, vec![Send(21)])])
+                },
+            );
             // L': two producers claim a run of two each into capacity 2 (the window fits one run): batch claim overshoot
             b.add(
                 fl,
